@@ -119,3 +119,24 @@ pub fn expand_home(tokens: &mut Tokens) {
 pub fn need_expand_brace(line: &str) -> bool {
     shell::verif::need_expand_brace(line)
 }
+
+pub fn escaped_word_start(line: &str) -> usize {
+    crate::completers::escaped_word_start(line)
+}
+
+pub fn highlight(line: &str) -> Vec<(usize, usize, bool)> {
+    use lineread::highlighting::{Highlighter, Style};
+    let h = crate::highlight::CicadaHighlighter;
+    h.highlight(line)
+        .into_iter()
+        .map(|(r, s)| (r.start, r.end, !matches!(s, Style::Default)))
+        .collect()
+}
+
+/// (completion text, display) of every candidate `complete_path` offers for `word`
+pub fn complete_path(word: &str, for_dir: bool) -> Vec<String> {
+    crate::completers::path::complete_path(word, for_dir)
+        .into_iter()
+        .map(|c| c.completion)
+        .collect()
+}
